@@ -55,6 +55,10 @@ func c06r1(c *Ctx) {
 				if !ok || bo.Op != token.SUB || !isUnsignedT(bo.Type()) {
 					continue
 				}
+				// gas is uint64 throughout the module; narrower unsigned arithmetic (epochs, byte masks) is not this property's
+				if bt, isB := bo.Type().Underlying().(*types.Basic); !isB || bt.Kind() != types.Uint64 {
+					continue
+				}
 				e := c.P.Env(fn)
 				construct := "(" + e.LE(bo.X).String() + ") - (" + e.LE(bo.Y).String() + ")"
 				r := c.P.ProveLin(fn, bo, func(e *Env) []LE { return []LE{e.LE(bo.X).minus(e.LE(bo.Y))} }, nil)
